@@ -15,7 +15,7 @@ import (
 var drNamespaces = []string{ns1, ns2, rootNS, ns3}
 
 // exportTo values of rules (no "~": validation rejects it for DestinationRules)
-var drExportTo = [][]string{nil, {"."}, {ns2}, {ns1}, {"*"}, {ns1, ns2}}
+var drExportTo = [][]string{nil, {"."}, {ns2}, {ns1}, {"*"}, {ns1, ns2}, {ns3}}
 
 const drExportToQuick = 4
 
@@ -63,7 +63,7 @@ func etIndex(e []string) int {
 func sameNS(a, b drForm) bool { return a.Present && b.Present && a.NS == b.NS }
 
 // inQuickPair: quick covers dr-one exportTo in {unset, ., [ns2], [ns1]} x dr-two in {unset, ., [ns2]}
-// for rules in different namespaces, and {unset, ., [ns2], [ns1], *} x the same five values for two
+// for rules in different namespaces, and {unset, ., [ns2], [ns1], *} x {the same five, [ns3]} for two
 // rules in one namespace (there the explicit "*" matters: consolidation compares exportTo sets).
 func inQuickPair(a, b drForm) bool {
 	ia, ib := 0, 0
@@ -74,7 +74,8 @@ func inQuickPair(a, b drForm) bool {
 		ib = etIndex(b.ExportTo)
 	}
 	if sameNS(a, b) {
-		return ia < 5 && ib < 5
+		// [ns3] (index 6): a list that names neither proxy namespace nor, usually, the rules' own
+		return ia < 5 && (ib < 5 || ib == 6)
 	}
 	return ia < drExportToQuick && ib < 3
 }
